@@ -387,6 +387,44 @@ pub fn cmd_wire_fuzz(a: &HashMap<String, String>) -> i32 {
             n += 1;
         }
     }
+    // 2a. hostile text: multi-byte patterns (code page markers followed by a lone lead byte, carets at the end, a lead byte
+    // before the NUL ...) written at every offset of one valid frame of every kind - text fields are parsed by hand-written
+    // scanners whose corner cases need several specific bytes in a row
+    {
+        let patterns: [&[u8]; 16] = [
+            b"^J\x94", b"^J\x94\0", b"^S\x81", b"^K\xfe", b"^H\x81\0", b"^J\xe0", b"^", b"^^", b"^^^C", b"\x81", b"\xff\xff\xff", b"^8^J\x82",
+            b"^L^G^C^E^T^B", b"^J\x83^", b"^H\xa4\0\xa4", b"^C\xf8^",
+        ];
+        for (kind, mode, base) in bases.iter() {
+            let mut seen: Vec<(String, usize)> = Vec::new();
+            let mut cases = 0u64;
+            for off in 3..base.len() {
+                for pat in patterns.iter() {
+                    // the pattern ends exactly at the end of the frame, or sits at this offset
+                    for at in [off, base.len().saturating_sub(pat.len())] {
+                        if at < 3 || at + pat.len() > base.len() {
+                            continue;
+                        }
+                        let mut buf = base.clone();
+                        buf[at..at + pat.len()].copy_from_slice(pat);
+                        let e = dec_event(mode, &buf, "hostile-text");
+                        cases += 1;
+                        let k = (e["res"].as_str().unwrap().to_string(), e["after"].as_u64().unwrap() as usize);
+                        if e["res"] == "panic" || e["reenc"] == "panic" || !e["rest_ok"].as_bool().unwrap() {
+                            let _ = writeln!(w, "{}", e);
+                            n += 1;
+                        }
+                        if !seen.contains(&k) {
+                            seen.push(k);
+                        }
+                    }
+                }
+            }
+            let seen_j: Vec<Value> = seen.iter().map(|(r, a)| json!({"res": r, "after": a})).collect();
+            let _ = writeln!(w, "{}", json!({"ev": "Hdr", "mode": mode, "sb": base[0], "len": base.len(), "seen": seen_j, "kind": kind, "offset": -1, "cases": cases}));
+            n += 1;
+        }
+    }
     // 2b. every vector's frame with another valid frame behind it: the outcome must not depend on what follows
     for (k, (mode, f)) in frames.iter().enumerate() {
         let (_, g) = &frames[(k * 7 + 3) % frames.len()];
